@@ -57,5 +57,29 @@ case "${1:-}" in
     done
     "$VERIF_DIR/check" build
     exit $rc ;;
-  *) echo "usage: selftest.sh determinism [N] | seeded [name]" >&2; exit 2 ;;
+  refactors)
+    # property-preserving changes: every quick check must stay silent (exit 0) and the pinned suite green
+    sel="${2:-}"
+    rc=0
+    export VERIF_EVIDENCE_DIR="$SIM/target/tmp/seeded-evidence"
+    export VERIF_REPLAY_DIR="$SIM/target/tmp/seeded-replays"
+    mkdir -p "$VERIF_EVIDENCE_DIR" "$VERIF_REPLAY_DIR"
+    REPO="${VERIF_REPO:-/repo}"
+    if [ -n "$(git -C $REPO status --porcelain --untracked-files=no)" ]; then echo "harness error: $REPO has uncommitted changes" >&2; exit 2; fi
+    for d in "$VERIF_DIR"/refactors/*/; do
+      name=$(basename "$d")
+      [ -n "$sel" ] && [ "$sel" != "$name" ] && continue
+      if ! git -C $REPO apply "$d/patch.diff"; then echo "$name: patch does not apply"; rc=1; continue; fi
+      suite=$(cd $REPO && cargo test --workspace --no-fail-fast --offline 2>&1 | grep -c "FAILED")
+      alarms=""
+      for p in $PROPS; do
+        out=$("$VERIF_DIR/check" $p quick 2>&1); code=$?
+        if [ $code -ne 0 ]; then alarms="$alarms $p(exit $code: $(echo "$out" | grep -m1 'class=' | cut -c1-120))"; fi
+      done
+      git -C $REPO checkout -- .
+      if [ -z "$alarms" ] && [ "$suite" = "0" ]; then echo "$name: SILENT (17 checks exit 0, suite green)"; else echo "$name: ALARM:$alarms suite_failed_lines=$suite"; rc=1; fi
+    done
+    "$VERIF_DIR/check" build
+    exit $rc ;;
+  *) echo "usage: selftest.sh determinism [N] | seeded [name] | refactors [name]" >&2; exit 2 ;;
 esac
